@@ -123,6 +123,31 @@ CTRL_STEPS = [
     ("spawn_task", r"\bspawn_task\s*\("),
 ]
 
+# the open path (unit Q37): `Store::open`, `create`, `Flock::lock`
+OPEN_STEPS = [
+    ("empty_check", r"is_directory_empty\s*\("),
+    ("create_call", r"=\s*create\s*\("),
+    ("create_dir_all", r"create_dir_all\s*\("),
+    ("dir_open", r"File::open\s*\(\s*&\s*o\s*\.\s*path\s*\)|options\s*\.\s*open\s*\(\s*&\s*o\s*\.\s*path\s*\)"),
+    ("flock_lock", r"Flock::lock\s*\("),
+    ("file_create", r"File::create\s*\("),
+    ("meta_write", r"Meta::write\s*\("),
+    ("bitbox_create", r"bitbox::create\s*\("),
+    ("beatree_create", r"beatree::create\s*\("),
+    ("dir_fsync", r"db_dir_fd\s*\.\s*sync_all\s*\("),
+    ("io_pool_start", r"start_io_pool\s*\("),
+    ("file_open_rw", r"options\s*\.\s*open\s*\(\s*&\s*o\s*\.\s*path\s*\.\s*join"),
+    ("meta_read", r"Meta::read\s*\("),
+    ("meta_validate", r"meta\s*\.\s*validate\s*\("),
+    ("tree_open", r"Tree::open\s*\("),
+    ("db_open", r"DB::open\s*\("),
+    ("rollback_read", r"Rollback::read\s*\("),
+    ("sync_new", r"Sync::new\s*\("),
+    ("lock_file_open", r"\.\s*open\s*\(\s*lock_path\s*\)"),
+    ("try_lock", r"try_lock_exclusive\s*\("),
+    ("bail", r"anyhow::bail!|\bbail!"),
+]
+
 # (lean name, file, fn name, enclosing `impl X` (or None), steps, allow_loops)
 TARGETS = [
     ("finished_commit", "nomt/src/lib.rs", "commit", "FinishedSession", LIB_STEPS, False),
@@ -143,11 +168,14 @@ TARGETS = [
     ("ctl_bitbox_spawn_wal_writeout", "nomt/src/bitbox/mod.rs", "spawn_wal_writeout", "SyncController", CTRL_STEPS, False),
     ("ctl_bitbox_wait_pre_meta", "nomt/src/bitbox/mod.rs", "wait_pre_meta", "SyncController", CTRL_STEPS, False),
     ("ctl_bitbox_post_meta", "nomt/src/bitbox/mod.rs", "post_meta", "SyncController", CTRL_STEPS, False),
+    ("store_open", "nomt/src/store/mod.rs", "open", "Store", OPEN_STEPS, False),
+    ("store_create", "nomt/src/store/mod.rs", "create", None, OPEN_STEPS, False),
+    ("flock_lock_fn", "nomt/src/store/flock.rs", "lock", "Flock", OPEN_STEPS, False),
 ]
 
 
 ALL_NAMES = []
-for _steps in (LIB_STEPS, SYNC_STEPS, STORE_STEPS, META_STEPS, RECOVER_STEPS, WRITEOUT_STEPS, CTRL_STEPS):
+for _steps in (LIB_STEPS, SYNC_STEPS, STORE_STEPS, META_STEPS, RECOVER_STEPS, WRITEOUT_STEPS, CTRL_STEPS, OPEN_STEPS):
     for _n, _ in _steps:
         if _n not in ALL_NAMES:
             ALL_NAMES.append(_n)
